@@ -215,6 +215,16 @@ func c17R2(c *Ctx) {
 				}
 				c.bad(fname+"/slice", P.InstrPos(in), fname, "slicing in package object (review)")
 			case *ssa.MapUpdate:
+				// filling a map that was made right here (a literal, a table built by
+				// the package initialiser) can neither hit a nil map nor a shared document
+				m := unwrapLoad(x.Map)
+				if ct, ok := m.(*ssa.ChangeType); ok {
+					m = ct.X
+				}
+				if mk, ok := m.(*ssa.MakeMap); ok && mk.Parent() == fn {
+					c.ok(fname+"/mapupdate", P.InstrPos(in), fname, "fills a map made in this function")
+					return
+				}
 				c.bad(fname+"/mapupdate", P.InstrPos(in), fname, "map write in package object: documents are shared read-only and a nil map panics")
 			case *ssa.Panic:
 				c.bad(fname+"/panic", P.InstrPos(in), fname, "explicit panic in an accessor")
